@@ -39,6 +39,8 @@ def build_cmd(demo_src):
             cmd.append(t)
     c = " ".join(x.rstrip("\\") for x in cmd)
     c = re.sub(r"/tmp/seed\d+", WT, c)
+    c = c.replace("<wt>", WT).replace("$WT", WT) if "WT=" not in c else c.replace("<wt>", WT)
+    c = re.sub(r"\s{2,}\(.*$", "", c)          # trailing explanation in parentheses
     c = re.sub(r"&&\s*\./\S+.*$", "", c).strip()
     return c
 
